@@ -67,6 +67,18 @@ impl<'a, const P: u128> DecisionNNFBuilder<'a> for SemanticDecisionNNFBuilder<'a
 }
 
 impl<'a, const P: u128> SemanticDecisionNNFBuilder<'a, P> {
+    /// every node currently stored in the unique table (verification hook)
+    #[cfg(rsdd_verif)]
+    pub fn verif_nodes(&self) -> Vec<&'a BddNode<'a>> {
+        self.compute_table.borrow().iter().collect()
+    }
+
+    /// the weight map used for node identity (verification hook)
+    #[cfg(rsdd_verif)]
+    pub fn verif_map(&self) -> &WmcParams<FiniteField<P>> {
+        &self.map
+    }
+
     pub fn new(order: VarOrder) -> SemanticDecisionNNFBuilder<'a, P> {
         SemanticDecisionNNFBuilder {
             map: create_semantic_hash_map(order.num_vars()),
